@@ -91,7 +91,8 @@ Verdict(c) ==
                                   /\ \E p \in Pix(c) : ~PxClose(Px(c, x[1], p[1], p[2]), FAdd(Px(c, x[2], p[1], p[2]), Px(c, x[3], p[1], p[2])))}
                    zerobad == {q \in Q : Len(NZs[q]) = 0 /\ \E p \in Pix(c) : FCmp(Px(c, q, p[1], p[2]), FZero) # 0}
                    negbad == {q \in Q : (\A n \in 1..Len(BP(c, q)) : FLeq(FZero, Weight(c, BP(c, q)[n]))) /\
-                                        (\/ \E p \in Pix(c) : ~FLeq(FNeg(E15), Px(c, q, p[1], p[2]))
+                                        \* (rounding of the inclusion-exclusion of CDF values is proportional to the point weights: 1e-15 of the total weight)
+                                        (\/ \E p \in Pix(c) : ~FLeq(FNeg(FMul(E15, FMax(FInt(1), TotalWeight(c, q)))), Px(c, q, p[1], p[2]))
                                          \/ ~FLeqTol(SumPixels(c, q), TotalWeight(c, q), E12, E9))}
                IN IF zerobad # {} THEN <<"fail", "C11-empty-or-zero-weight-diagram-not-all-zero", Min(zerobad), 0, 0>>
                   ELSE IF eqbad # {} THEN <<"fail", "C11-same-points-different-image">> \o First3(eqbad)
